@@ -327,6 +327,8 @@ def judge(k, relfile, src, point, props):
             if rc != 0 and vio:
                 break                                  # one check that reports it is enough
         caught = [p for p, d in verdicts.items() if d["rc"] != 0 and d["violation"]]
+        if not caught and any(d["rc"] == 124 for d in verdicts.values()):
+            return {"status": "TIMEOUT", "by": [], "verdicts": verdicts}      # the check did not end: no verdict
         return {"status": "caught" if caught else "SURVIVED", "by": caught, "verdicts": verdicts}
     finally:
         open(target, "w").write(orig)
